@@ -368,7 +368,7 @@ pub fn property() -> Property {
         level: "exploration",
         rule: "Stateful proptest: a start Zoned (any database zone, fixed offset or UTC; instant around a transition 70% of the time) and a history of 1..12 operations drawn from 34 operation kinds (add/sub span, saturating add, absolute duration, round, with-builders for every field incl. offset with all offset-conflict x disambiguation strategies, with_time_zone/in_tz, start/end of day, tomorrow/yesterday, first/last of month/year, nth weekday, print->parse, strftime->strptime, civil->zoned with compatible/earlier/later, series nth, until-then-add-back, timestamp->zoned), interpreted step by step; operations that return Err leave the state unchanged (counted). After every successful step the invariant is evaluated through jiff's own lookups and through the reference reader; at the end Eq/Ord/Hash are compared against a twin in another zone and a neighbour 1ns later. Whole histories shrink as one value. Non-trivial: >= 3 successful operations of which at least one lands within 30 minutes of a gap/fold or uses a direct-assembly path.",
         assumptions: &["reftz.rs (C03)", "the history tracks which zone the value should be in; zones are those reachable by name through the global database"],
-        checks: vec![Box::new(Prop { name: "c13.history", quick: 1_500_000, thorough: 10_000_000, strategy: strat_history, test: test_history })],
+        checks: vec![Box::new(Prop { name: "c13.history", quick: 4_500_000, thorough: 40_000_000, strategy: strat_history, test: test_history })],
         floors: |rec| {
             rec.floor("c13.history:landed-near-gap-or-fold", "c13.history:cases", 0.10);
             rec.floor("c13.history:direct-assembly-path", "c13.history:cases", 0.30);
